@@ -293,6 +293,34 @@ VP_TARGET("pool_c", pool_c_target,
           "exhausted pool), then free all and re-allocate capacity+1 times; non-trivial = the history went "
           "exhausted -> free -> alloc");
 
+// A pool enlarged by a second pool_engage() (two start-up zones, or a pool grown later — paged pools do this): the cells
+// of both zones count. The two zones are the two halves of one exactly-sized block, so the adapter's single-zone view holds.
+static void pool_c_two_zones_target(Src &s, Case &c)
+{
+    size_t el = pick_elemsz(s), cap1 = (size_t)s.range(1, 12), cap2 = (size_t)s.range(1, 12);
+    Exact zone(el * (cap1 + cap2));
+    memset(zone.p, 0xA5, el * (cap1 + cap2));
+    PoolC a(zone.p, cap1, el); // engages the first zone
+    // some traffic on the first zone; everything is returned before the pool grows (in a drawn order)
+    size_t take = (size_t)s.below(cap1 + 1);
+    std::vector<void *> got;
+    for (size_t i = 0; i < take; i++)
+        got.push_back(pool_alloc(&a.head));
+    while (!got.empty())
+    {
+        size_t k = (size_t)s.below(got.size());
+        pool_free(&a.head, got[k]);
+        got.erase(got.begin() + (long)k);
+    }
+    c.log("zone 1: %zu cells of %zu bytes (%zu taken and returned), then pool_engage of %zu more cells: ", cap1, el, take, cap2);
+    pool_engage(&a.head, zone.p + cap1 * el, cap2 * el, el);
+    a.cap = cap1 + cap2;
+    pool_history(s, c, a, "pool_c");
+}
+VP_TARGET("pool_c_two_zones", pool_c_two_zones_target,
+          "pool_head with two zones: 1..12 cells engaged, some taken and all returned in a drawn order, then pool_engage() of 1..12 more cells behind them; then the full pool_c "
+          "history and checks over all cells (capacity before null, free count, cells inside the zones)");
+
 static size_t big_cap(Src &s) { return (size_t)(s.weighted({3, 1, 1}) == 0 ? s.range(250, 262) : s.coin() ? s.range(33, 300) : s.range(508, 516)); }
 static void pool_c_big_target(Src &s, Case &c)
 {
